@@ -14,14 +14,17 @@ def env_words(env):
     hx = lambda s: s.encode().hex() or '-'
     return ' '.join([str(env['amount']), str(env['balance']), str(env['now']), str(env['level']),
                      hx(env['sender']), hx(env['source']), hx(env['self']), hx(env['chain_id']),
-                     str(env.get('total_voting_power', 0)), str(env.get('min_block_time', 1))])
+                     str(env.get('total_voting_power', 0)), str(env.get('min_block_time', 1)),
+                     ','.join(f'{hx(k)}:{v}' for k, v in sorted(env.get('voting_power', {}).items())) or '-'])
 
 
 def gen_env(rng):
     return {'amount': rng.choice([0, 1, 10**6, 2**62]), 'balance': rng.choice([0, 5, 10**9]), 'now': rng.choice([0, 1, 1700000000, -5]),
             'level': rng.choice([1, 2, 10**7]), 'sender': rng.choice(gen_interp.ADDRS), 'source': rng.choice(gen_interp.ADDRS[:1] + gen_interp.ADDRS[2:4]),
             'self': rng.choice(gen_interp.ADDRS[1:2] + gen_interp.ADDRS[4:]), 'chain_id': rng.choice(gen_interp.CHAINS),
-            'total_voting_power': rng.choice([0, 1, 500, 10**12]), 'min_block_time': rng.choice([1, 8, 15, 30])}
+            'total_voting_power': rng.choice([0, 1, 500, 10**12]), 'min_block_time': rng.choice([1, 8, 15, 30]),
+            # the delegates with a voting power (the others have 0): some of the hashes HASH_KEY produces, some pushed literally
+            'voting_power': {k: rng.choice([0, 1, 4000, 2**63, 10**30]) for k in gen_interp.KEY_HASHES if rng.random() < 0.5}}
 
 
 ERR_KINDS = ('err', 'stuck', 'oof', 'rtfail', 'offguard')
@@ -209,7 +212,10 @@ def run(ctx, prop=PROP):
             if d:
                 ctx.mismatch('impl-mirror', {'code': code, 'env': env}, f'{d}: {str(real)[:300]}', str(impl_m)[:300])
             if real[0] == 'failed' and impl_m[0] == 'failed':
-                want_repr = interp_run.py_repr(*impl_m[1])
+                try:
+                    want_repr = interp_run.py_repr(*impl_m[1])
+                except interp_run.NoRepr:
+                    want_repr = None
                 if want_repr is not None and want_repr != real[1]:
                     ctx.mismatch('failwith-value', {'code': code, 'env': env}, real[1], want_repr)
             # ---- C02's property verbatim: runtime type of every final slot = the type the typing rules assign
@@ -258,7 +264,7 @@ def run(ctx, prop=PROP):
                       {'code': code, 'minimal': small, 'env': env, 'real': str(real), 'reference': str(spec_m)})
 
 
-HASHES = ['blake2b', 'sha256', 'sha512', 'keccak', 'sha3']
+HASHES = ['blake2b', 'sha256', 'sha512', 'keccak', 'sha3']      # + 'hashkey': HASH_KEY's function on the keys the generator uses
 
 
 def real_hash(algo, msg):
@@ -270,6 +276,9 @@ def real_hash(algo, msg):
         return blake2b_32(msg).digest()
     if algo == 'keccak':
         return Keccak256(msg).digest()
+    if algo == 'hashkey':      # what HashKeyInstruction computes: text of the key -> text of its hash
+        from pytezos.crypto.key import Key
+        return Key.from_encoded_key(msg.decode()).public_key_hash().encode()
     return {'sha256': hashlib.sha256, 'sha512': hashlib.sha512, 'sha3': hashlib.sha3_256}[algo](msg).digest()
 
 
@@ -284,6 +293,7 @@ def hash_stream(rng, tier):
         msg = rng.bytes_(n) if kind else bytes([rng.choice([0, 0xff, 0x80])] * n)
         for algo in HASHES:
             cases.append((algo, msg))
+    cases += [('hashkey', k.encode()) for k in gen_interp.KEYS]
     return cases
 
 
